@@ -402,6 +402,9 @@ def d4_callsite(ctx):
             dv = expand_name(du, data, c)
             if isinstance(dv, ast.Attribute) and dv.attr == "T":
                 dv = dv.value
+            mv = expand_name(du, mv, c) if mv is not None else None
+            if isinstance(mv, ast.Name) and fi.parent is not None:
+                mv = expand_name(DefUse(fi.parent.node), mv, fi.node)    # hoisted into the enclosing function
             dcol = mcol = None
             if isinstance(dv, ast.Subscript) and isinstance(dv.slice, ast.Tuple) and len(dv.slice.elts) == 2 and isinstance(dv.slice.elts[1], ast.Slice):
                 dcol = norm(dv.slice.elts[1])
